@@ -2,6 +2,8 @@ import MindsVerif.Model.Render
 import MindsVerif.Model.SaParen
 import MindsVerif.Model.EngineSqlite
 import MindsVerif.Gen.SaPrec
+import MindsVerif.Model.RenderSetOps
+import MindsVerif.Model.RenderScope
 /-! Line protocol driver for the renderer model (C06).
 
     E <expr>                 expr in prefix form: null | i <int> | c <n> | cmp <key_> L R | ar <key> L R |
@@ -12,6 +14,16 @@ import MindsVerif.Gen.SaPrec
     K <dir_> <nulls_>        -> ORDER BY suffix printed by prepare_select          (`_` for spaces, `-` for "")
     W <dir_> <nulls_>        -> ORDER BY suffix printed inside OVER (…)
     T <int n | null | btw | col> <alias or ->   -> label of the target
+    SO <dialect> ; <rows of operand 0> <rows of operand 1> … ; <tree>      tree: L <i> | N <OPKEY> <l> <r>
+      -> text structure `prepare_union` prints (S<i>, D[ … ], ( … ), OPKEY) | sup=<target has the operators> |
+         rows of the tree | rows the target reads from that text (`!` = rejected)
+    SX <rows …> ; <tree> ; <text structure sqlite> ; <… mysql> ; <… postgres>
+      -> the model's text structure ×3 | sup=<sqlite has the operators> | rows of the tree | rows each dialect reads
+         from the given text ×3 | acc=<`accepted d tree text` per dialect, 3 digits>
+    SR <dialect> ; <rows …> ; <text structure as printed above>
+      -> rows the target dialect reads from the text (`!` = rejected)
+    FS <fresh|cache|cacheall> ; <level> ; <level> …      level: entries `t<table>[:<alias>]` | `j,<tref>,<tref>…`
+      -> the FROM lists SQLAlchemy displays for that chain of nested expression sub-queries
 -/
 open MindsVerif MindsVerif.Render MindsVerif.Gen
 
@@ -394,10 +406,137 @@ def handle (line : String) : String :=
     | some e => ((saTarget ⟨e, if al == "-" then none else some al⟩).alias).getD "-"
   | _ => "bad-line"
 
+/-! ### round 5: set-operation text structure, FROM lists under auto-correlation -/
+section Round5
+open MindsVerif.RenderSetOps MindsVerif.RenderScope
+
+def opOfKey (k : String) : Option (SetOp × Bool) :=
+  [(SetOp.union, true), (.union, false), (.intersect, true), (.intersect, false), (.except, true), (.except, false)].find?
+    fun p => opText p.1 p.2 == k
+
+def dialectOf (s : String) : Option Dialect :=
+  if s == "sqlite" then some .sqlite else if s == "mysql" then some .mysql
+  else if s == "postgres" then some .postgres else none
+
+partial def readTree : List String → Option (STree × List String)
+  | "L" :: i :: rest => i.toNat?.map fun i => (.leaf i, rest)
+  | "N" :: k :: rest => do
+    let (op, u) ← opOfKey k
+    let (l, rest) ← readTree rest
+    let (r, rest) ← readTree rest
+    some (.node op u l r, rest)
+  | _ => none
+
+mutual
+partial def readAtom : List String → Option (RText × List String)
+  | "D[" :: rest => do
+    let (x, rest) ← readText rest
+    match rest with | "]" :: rest => some (.wrap .derived x, rest) | _ => none
+  | "(" :: rest => do
+    let (x, rest) ← readText rest
+    match rest with | ")" :: rest => some (.wrap .paren x, rest) | _ => none
+  | t :: rest =>
+    if t.startsWith "S" then (t.drop 1).toString.toNat?.map fun i => (.sel i, rest) else none
+  | [] => none
+partial def readMore (acc : RText) : List String → Option (RText × List String)
+  | k :: rest =>
+    match opOfKey k with
+    | some (op, u) => do
+      let (y, rest) ← readAtom rest
+      readMore (.chain acc op u y) rest
+    | none => some (acc, k :: rest)
+  | [] => some (acc, [])
+partial def readText (ts : List String) : Option (RText × List String) := do
+  let (x, rest) ← readAtom ts
+  readMore x rest
+end
+
+/-- (the rows are read once, by the caller: `tabsOf (ts.map readRows)`) -/
+def tabsOf (tabs : List Render.Table) (i : Nat) : Render.Table := (tabs[i]?).getD []
+
+def showOpt : Option Render.Table → String
+  | none => "!"
+  | some t => showRows t
+
+def readTRef (s : String) : Option TRef :=
+  match (s.drop 1).toString.splitOn ":" with
+  | [t] => t.toNat?.map fun t => ⟨t, none⟩
+  | [t, a] => match t.toNat?, a.toNat? with | some t, some a => some ⟨t, some a⟩ | _, _ => none
+  | _ => none
+
+def readFRef (s : String) : Option FRef :=
+  if s.startsWith "j," then
+    match ((s.drop 2).toString.splitOn ",").mapM readTRef with
+    | some (a :: more) => some (.join a more)
+    | _ => none
+  else (readTRef s).map .table
+
+def showTRef (t : TRef) : String := s!"t{t.table}" ++ (match t.alias with | none => "" | some a => s!":{a}")
+
+def showFRef : FRef → String
+  | .table t => showTRef t
+  | .join a more => "j," ++ ",".intercalate ((a :: more).map showTRef)
+
+def handle5 (line : String) : Option String :=
+  match (line.trimAscii.toString.splitOn " ").filter (· ≠ "") with
+  | "SO" :: rest =>
+    match splitSemi rest with
+    | [[d], tabs, tree] =>
+      match dialectOf d, readTree tree with
+      | some d, some (t, []) =>
+        let rows := tabs.map readRows
+        let tb := tabsOf rows
+        let x := RenderSetOps.render d t
+        some (x.show ++ s!" | sup={b01 (supported d t)} | " ++ showRows (evalTree tb t) ++ " | " ++ showOpt (denote d tb x))
+      | _, _ => some "bad-line"
+    | _ => some "bad-line"
+  | "SX" :: rest =>
+    -- all three dialects at once: SX <rows …> ; <tree> ; <sqlite text> ; <mysql text> ; <postgres text>
+    --   -> model text ×3 | sup(sqlite) | rows of the tree | reading of the given text ×3 | acc=<3 digits>
+    match splitSemi rest with
+    | [tabs, tree, xs, xm, xp] =>
+      match readTree tree with
+      | some (t, []) =>
+        let rows := tabs.map readRows
+        let tb := tabsOf rows
+        let rd := fun (d : Dialect) (ts : List String) => match readText ts with
+          | some (x, []) => showOpt (denote d tb x)
+          | _ => "bad-text"
+        let ac := fun (d : Dialect) (ts : List String) => match readText ts with
+          | some (x, []) => b01 (accepted d t x)
+          | _ => "0"
+        some (" | ".intercalate [(RenderSetOps.render .sqlite t).show, (RenderSetOps.render .mysql t).show,
+          (RenderSetOps.render .postgres t).show, s!"sup={b01 (supported .sqlite t)}", showRows (evalTree tb t),
+          rd .sqlite xs, rd .mysql xm, rd .postgres xp, "acc=" ++ ac .sqlite xs ++ ac .mysql xm ++ ac .postgres xp])
+      | _ => some "bad-line"
+    | _ => some "bad-line"
+  | "SR" :: rest =>
+    match splitSemi rest with
+    | [[d], tabs, text] =>
+      match dialectOf d, readText text with
+      | some d, some (x, []) => let rows := tabs.map readRows
+        some (showOpt (denote d (tabsOf rows) x))
+      | _, _ => some "bad-line"
+    | _ => some "bad-line"
+  | "FS" :: rest =>
+    match splitSemi rest with
+    | [pol] :: levels =>
+      match levels.mapM (fun l => l.mapM readFRef) with
+      | some ls =>
+        let objs := if pol == "fresh" then allocFresh 0 ls else allocCached (pol == "cacheall") 0 ls
+        some (" ; ".intercalate ((printed (displayAll [] objs)).map fun l =>
+          if l.isEmpty then "-" else " ".intercalate (l.map showFRef)))
+      | none => some "bad-line"
+    | _ => some "bad-line"
+  | _ => none
+
+end Round5
+
 partial def loop (h : IO.FS.Stream) (out : IO.FS.Stream) : IO Unit := do
   let line ← h.getLine
   if line.isEmpty then return ()
-  out.putStrLn (handle line)
+  let r5 := line.startsWith "SO " || line.startsWith "SR " || line.startsWith "SX " || line.startsWith "FS "
+  out.putStrLn (if r5 then (handle5 line).getD "bad-line" else handle line)
   loop h out
 
 def main : IO Unit := do
